@@ -500,8 +500,13 @@ func genSingle(c *Case, r *simrt.Rand, cfg genCfg) {
 				}
 				c.Prog = append(c.Prog, op)
 				nsnap++
-			case y < 8:
+			case y < 6:
 				c.Prog = append(c.Prog, Op{Kind: "snapVerify", N: r.Intn(nsnap)})
+			case y < 8:
+				ip := genIterProg(r, g.pool)
+				ip.Kind = "snapIter"
+				ip.N = r.Intn(nsnap)
+				c.Prog = append(c.Prog, ip)
 			default:
 				c.Prog = append(c.Prog, Op{Kind: "snapClose", N: r.Intn(nsnap)})
 			}
